@@ -253,7 +253,7 @@ def run(eng, R):
          "_on_error_change can return without re-selecting the cost node: after a fit on diagonal errors cost_function_value keeps reading the pointwise cost and ignores correlations added later")
 
     # ---------------------------------------------------------------- F5
-    df = p.method(FB, "do_fit")
+    df = eng.cfunc(p.method(FB, "do_fit"), paths=False)  # canonical: a refit block moved into a private helper is written out
     g = eng.cfg(df)
 
     def is_call(n, name, recv=None):
